@@ -7,6 +7,7 @@ import EpgVerif.Props.C03Prog
 import EpgVerif.Props.C03Diag
 import EpgVerif.Props.C03EDiag
 import EpgVerif.Props.C03R
+import EpgVerif.Props.C03PRDiag
 import EpgVerif.Props.C03Phi
 import EpgVerif.Props.C03P
 open EpgVerif.Props.C03
@@ -42,3 +43,6 @@ open EpgVerif.Props.C03
 #print axioms R_mixed_partial_exact_nl
 #print axioms P_mixed_symm
 #print axioms P_mixed_partial_exact_nl
+#print axioms P_diag_partial_exact_nl
+#print axioms R_diag_partial_exact_nl
+#print axioms Phi_diag_partial_exact_nl
